@@ -295,3 +295,209 @@ func ruleHeapOrders(r *Run, rule string, want map[string]string) {
 		r.Check(got == dir, rule, typ+".Less", site, "Less is "+dir+" on "+field, "Less is "+got+" on "+field+", must be "+dir)
 	}
 }
+
+// ruleHNSWNeighbourTable: the body of the neighbour loop of the layer search as a truth table over
+// (VISITED, FULL = |result| ≥ ef, CLOSER = d < worst result, DELETED, OVER = |result| > ef after the push):
+//
+//	visited            ⇒ nothing happens
+//	¬visited           ⇒ marked visited; explored (pushed on the exploration heap) ⇔ ¬FULL ∨ CLOSER;
+//	                     reported (pushed on the result heap) ⇔ explored ∧ ¬DELETED; worst result evicted ⇔ reported ∧ OVER
+//
+// and no iteration leaves the loop. Decided by path enumeration over one iteration, however the guards are spelled.
+func ruleHNSWNeighbourTable(r *Run, rule string) {
+	w := r.W
+	fn := hnswLayerFn(w)
+	if fn == nil {
+		return
+	}
+	name := w.Name(fn)
+	k, err := kindByName(w, "hnsw")
+	if err != nil {
+		return
+	}
+	c := NewCanon(w)
+	delCanon := "P0." + k.DelField
+	// result heap = the one whose Pop feeds the returned slice (as in ruleHNSWLayerSearch)
+	resultHeap := ""
+	allInstrs(fn, func(in ssa.Instruction) {
+		if st, ok := in.(*ssa.Store); ok {
+			if ta, ok := st.Val.(*ssa.TypeAssert); ok {
+				if pop, ok := ta.X.(*ssa.Call); ok && calleeName(pop.Common()) == "container/heap.Pop" {
+					if ia, ok := st.Addr.(*ssa.IndexAddr); ok {
+						if _, ok := ia.X.(*ssa.MakeSlice); ok {
+							resultHeap = c.S(pop.Call.Args[0])
+						}
+					}
+				}
+			}
+		}
+	})
+	if resultHeap == "" {
+		return
+	}
+	// the neighbour loop: innermost loop containing a result push whose id is not the entry point parameter
+	var pushR, pushE, popR *ssa.Call
+	var loop *Loop
+	loops := loopsOf(fn)
+	allInstrs(fn, func(in ssa.Instruction) {
+		call, ok := in.(*ssa.Call)
+		if !ok {
+			return
+		}
+		l := innermostLoop(loops, call.Block())
+		if l == nil {
+			return
+		}
+		switch calleeName(call.Common()) {
+		case "container/heap.Push":
+			inner := true
+			for _, l2 := range loops {
+				if l2 != l && l.Blocks[l2.Header] {
+					inner = false // l contains another loop: not the innermost one
+				}
+			}
+			if !inner {
+				return
+			}
+			if c.S(call.Call.Args[0]) == resultHeap {
+				pushR, loop = call, l
+			} else {
+				pushE = call
+			}
+		case "container/heap.Pop":
+			if c.S(call.Call.Args[0]) == resultHeap && l != nil {
+				isInner := true
+				for _, l2 := range loops {
+					if l2 != l && l.Blocks[l2.Header] {
+						isInner = false
+					}
+				}
+				if isInner {
+					popR = call
+				}
+			}
+		}
+	})
+	popR = nil
+	if loop != nil {
+		allInstrs(fn, func(in ssa.Instruction) {
+			if call, ok := in.(*ssa.Call); ok && calleeName(call.Common()) == "container/heap.Pop" && c.S(call.Call.Args[0]) == resultHeap && loop.Blocks[call.Block()] {
+				popR = call
+			}
+		})
+	}
+	site := w.Pos(fn.Pos()) + " " + name
+	if loop == nil || pushR == nil || pushE == nil || !loop.Blocks[pushE.Block()] {
+		r.Und(rule, "hnsw:neighbours:shape", site, "the neighbour loop with its two heap pushes was not found")
+		return
+	}
+	worst := resultHeap + "[c(0)].distance"
+	var visitAdd *ssa.Call
+	allInstrs(fn, func(in ssa.Instruction) {
+		if call, ok := in.(*ssa.Call); ok && calleeName(call.Common()) == roaringBitmap+"Add" && loop.Blocks[call.Block()] && strings.Contains(c.S(call.Call.Args[0]), "roaring.New(") {
+			visitAdd = call
+		}
+	})
+	isEf := func(s string) bool {
+		return s == "P3" || strings.HasPrefix(s, "phi@") // ef, possibly clamped
+	}
+	classify := func(cond ssa.Value) (string, bool) {
+		switch x := cond.(type) {
+		case *ssa.Call:
+			if calleeName(x.Common()) == roaringBitmap+"Contains" {
+				if c.S(x.Call.Args[0]) == delCanon {
+					return "DELETED", false
+				}
+				if strings.Contains(c.S(x.Call.Args[0]), "roaring.New(") {
+					return "VISITED", false
+				}
+			}
+		case *ssa.BinOp:
+			cmp, neg, ok := normCmp(c, x)
+			if !ok {
+				return "", false
+			}
+			isLen := func(s string) bool { return strings.Contains(s, ".Len(") && strings.Contains(s, resultHeap) }
+			after := domInstr(pushR, x)
+			switch {
+			case !after && cmp.Op == token.LSS && isLen(cmp.L) && isEf(cmp.R): // len < ef
+				return "FULL", !neg
+			case !after && cmp.Op == token.LEQ && isEf(cmp.L) && isLen(cmp.R): // ef <= len
+				return "FULL", neg
+			case after && cmp.Op == token.LSS && isEf(cmp.L) && isLen(cmp.R): // ef < len
+				return "OVER", neg
+			case after && cmp.Op == token.LEQ && isLen(cmp.L) && isEf(cmp.R): // len <= ef
+				return "OVER", !neg
+			case cmp.Op == token.LSS && cmp.R == worst && strings.Contains(cmp.L, "Distance.Calculate("): // d < worst
+				return "CLOSER", neg
+			case cmp.Op == token.LEQ && cmp.L == worst && strings.Contains(cmp.R, "Distance.Calculate("): // worst <= d
+				return "CLOSER", !neg
+			}
+		}
+		return "", false
+	}
+	paths, trunc := enumPaths(loop.Header, walkCfg{
+		Stop:      func(b *ssa.BasicBlock) bool { return b == loop.Header || !loop.Blocks[b] },
+		MaxVisits: 2, MaxPaths: 8000 * pathScale, Decide: decideOnPath,
+	})
+	if trunc {
+		r.Und(rule, "hnsw:neighbours:paths", site, "the neighbour loop has too many paths to enumerate")
+		return
+	}
+	var rows []pathRow
+	early := ""
+	for _, p := range paths {
+		if p.End == EndCycle || !p.Feasible() {
+			continue
+		}
+		if p.End == EndStop && len(p.Blocks) == 2 && !loop.Blocks[p.Blocks[1]] {
+			continue // the loop condition ended the loop
+		}
+		if p.End != EndStop || !loop.Blocks[p.Blocks[len(p.Blocks)-1]] {
+			last := p.Blocks[len(p.Blocks)-2]
+			early = w.InstrPos(last.Instrs[len(last.Instrs)-1])
+			continue
+		}
+		if row := classifyPath(p, classify); !row.Conflict {
+			rows = append(rows, row)
+		}
+	}
+	r.Check(early == "", rule, "hnsw:neighbours:complete", site, "every neighbour of the expanded vertex is considered (no iteration leaves the loop)",
+		"an iteration of the neighbour loop leaves the loop at "+early+": the remaining neighbours of the vertex are never looked at")
+	outcome := func(row pathRow) string {
+		var parts []string
+		if visitAdd != nil && row.P.Has(visitAdd) {
+			parts = append(parts, "mark")
+		}
+		if row.P.Has(pushE) {
+			parts = append(parts, "explore")
+		}
+		if row.P.Has(pushR) {
+			parts = append(parts, "report")
+		}
+		if popR != nil && row.P.Has(popR) {
+			parts = append(parts, "evict")
+		}
+		if len(parts) == 0 {
+			return "nothing"
+		}
+		return strings.Join(parts, "+")
+	}
+	bad, states := tableCheck([]string{"VISITED", "FULL", "CLOSER", "DELETED", "OVER"}, rows, outcome, func(a map[string]bool) string {
+		if a["VISITED"] {
+			return "nothing"
+		}
+		admit := !a["FULL"] || a["CLOSER"]
+		switch {
+		case !admit:
+			return "mark"
+		case a["DELETED"]:
+			return "mark+explore"
+		case a["OVER"]:
+			return "mark+explore+report+evict"
+		}
+		return "mark+explore+report"
+	})
+	r.Check(len(bad) == 0, rule, "hnsw:neighbours:table", site, fmt.Sprintf("neighbour handling agrees with the specification in all %d states of (VISITED, FULL, CLOSER, DELETED, OVER)", states),
+		"neighbour handling differs from `unvisited ⇒ mark; explore ⇔ ¬full ∨ closer; report ⇔ explored ∧ ¬deleted; evict ⇔ reported ∧ over`: "+truncList(bad, 3))
+}
